@@ -15,6 +15,8 @@ THEOREMS = [
     'IblVerif.C15.good_rows_bit_identical',
     'IblVerif.C15.sequential_eq_parallel',
     'IblVerif.C15.order_irrelevant',
+    'IblVerif.C15.repair_depends_only_on_donors',
+    'IblVerif.C15.repair_depends_only_on_donors_real',
     'IblVerif.C15.repair_is_convex',
     'IblVerif.C15.repair_within_donor_range',
     'IblVerif.C15.no_donor_zero',
@@ -29,7 +31,7 @@ THEOREMS = [
 RULE = ('(a) interp: label vectors over {0,1,2,3} x geometry x data: every label vector for nc <= 4 (quick) / 6 (thorough) on a line, '
         'NP1 and NP2 layouts, plus seeded random cases (nc up to 384; NP1/NP2/NPultra/line/jittered/duplicate-site/cut-off-distance '
         'geometries; label patterns none/all-bad/single/probe ends/clusters of 2..14 adjacent bad channels/random/top block of 3s; data '
-        'normal/constant/ramp/outlier-on-bad/integers, float64 and float32; default and non-default p, kriging distance): the real '
+        'normal/constant/ramp/outlier-on-bad/integers, with NaN/+inf/-inf planted in bad channels (whole channel, stretch, single samples) and in good non-donor channels, float64 and float32; default and non-default p, kriging distance): the real '
         'interpolate_bad_channels against the Float twin of the Lean model (values within tolerance, zero rows and untouched rows exact); '
         'non-trivial = at least one bad channel; (b) labels: the real detect_bad_channels on synthetic gain-profile recordings (AP and LF '
         'band, default and explicit thresholds, low-coherence runs at the top / in the middle / split, dead and noisy channels inside '
@@ -38,7 +40,7 @@ RULE = ('(a) interp: label vectors over {0,1,2,3} x geometry x data: every label
         'through a recording wrapper -> model mode, and the sample slices it reads -> Float twin of linspace/int, both exact; '
         '(d) numeric oracle: silent / noisy / outside-brain faults injected on coherent AP backgrounds, labels checked directly')
 ASSUMPTIONS = [
-    'interp: labels, x, y and data rows all have length nc (the code raises or silently ignores entries otherwise; not part of the property); data finite, float64 or float32',
+    'interp: labels, x, y and data rows all have length nc (the code raises or silently ignores entries otherwise; not part of the property); float64 or float32; non-finite samples only where the property says they must not matter (bad channels, good channels that are nobody\'s donor) — a non-finite donor legitimately gives a non-finite repair',
     'interp: Float twin compared with tolerance 1e-9*scale (float64) / 2e-6*scale (float32), scale = max |donor candidates|: BLAS matmul order, hypot vs sqrt; '
     'cases in which a raw weight lies within 1e-9 (relative) of the 0.005 cut-off are skipped (never drawn in practice)',
     'over the reals x/0 = 0 plays the role of NumPy nan (weights/0): both make "weights > 0" false, i.e. no donor',
@@ -150,6 +152,7 @@ def label_vector(kind, nc, rng):
 
 LABEL_KINDS = ('none', 'all-bad', 'single', 'ends', 'cluster', 'random', 'mostly-bad', 'top3')
 DATA_KINDS = ('normal', 'const', 'ramp', 'outlier', 'ints')
+NONFINITE = ('none', 'channel', 'stretch', 'samples')
 
 
 def data_matrix(kind, nc, ns, lab, y, rng):
@@ -168,6 +171,37 @@ def data_matrix(kind, nc, ns, lab, y, rng):
     return np.ascontiguousarray(d, dtype=float)
 
 
+def plant_nonfinite(c, how, rng, far=True):
+    """NaN / +inf / -inf in BAD channels (whole channel, a stretch, single samples) and, optionally, in good channels
+    that are no bad channel's donor: none of these rows may influence the result.  Donor rows stay finite."""
+    if how == 'none':
+        return ()
+    lab, d = c['lab'], c['data']
+    bad = np.where((lab == 1) | (lab == 2))[0]
+    if bad.size == 0:
+        return ()
+    ns = d.shape[1]
+    tags = ['nonfinite=' + how]
+    sel = bad if rng.random() < .5 else rng.choice(bad, size=max(1, bad.size // 2), replace=False)
+    for i in sel:
+        v = float(rng.choice([np.nan, np.nan, np.inf, -np.inf]))
+        if how == 'channel':
+            d[i, :] = v
+        elif how == 'stretch':
+            a = int(rng.integers(0, ns))
+            d[i, a:a + int(rng.integers(1, ns + 1))] = v
+        else:
+            d[i, rng.integers(0, ns, size=int(rng.integers(1, 3)))] = v
+    if far:
+        W = _raw_weights(c)
+        isbad = (lab == 1) | (lab == 2)
+        nondonor = np.where(~isbad & ~np.any(W[isbad] >= CUT * (1 - 1e-6), axis=0))[0]
+        if nondonor.size and rng.random() < .5:
+            d[int(rng.choice(nondonor)), int(rng.integers(0, ns))] = np.nan
+            tags.append('nan-in-good-non-donor')
+    return tuple(tags)
+
+
 def interp_cases(ctx):
     """yield dict(nc, ns, lab, x, y, data, p, krig, f32, tags)"""
     rng = ctx.rng
@@ -184,8 +218,10 @@ def interp_cases(ctx):
             for code in range(4 ** nc):
                 lab = np.array([(code // 4 ** k) % 4 for k in range(nc)], dtype=int)
                 dk = DATA_KINDS[code % len(DATA_KINDS)]
-                out.append(dict(nc=nc, ns=2, lab=lab, x=x, y=y, data=data_matrix(dk, nc, 2, lab, y, rng), p=P0, krig=K0, default=True,
-                                f32=False, tags=('interp', 'exhaustive-small', 'geom=' + gk, 'data=' + dk)))
+                c = dict(nc=nc, ns=2, lab=lab, x=x, y=y, data=data_matrix(dk, nc, 2, lab, y, rng), p=P0, krig=K0, default=True,
+                         f32=False, tags=('interp', 'exhaustive-small', 'geom=' + gk, 'data=' + dk))
+                c['tags'] += plant_nonfinite(c, NONFINITE[(code // len(DATA_KINDS)) % len(NONFINITE)], rng)
+                out.append(c)
     for _ in range(ctx.n(400, 3000)):
         gk = str(rng.choice(GEOMS))
         r = rng.random()
@@ -204,9 +240,11 @@ def interp_cases(ctx):
         f32 = bool(rng.random() < .3)
         if f32:
             d = d.astype(np.float32).astype(float)
-        out.append(dict(nc=nc, ns=ns, lab=lab, x=x, y=y, data=d, p=p, krig=krig, default=dflt, f32=f32, float_labels=bool(rng.random() < .3),
-                        tags=('interp', 'random', 'geom=' + gk, 'labels=' + lk, 'data=' + dk,
-                              'f32' if f32 else 'f64', 'default-params' if dflt else 'other-params')))
+        c = dict(nc=nc, ns=ns, lab=lab, x=x, y=y, data=d, p=p, krig=krig, default=dflt, f32=f32, float_labels=bool(rng.random() < .3),
+                 tags=('interp', 'random', 'geom=' + gk, 'labels=' + lk, 'data=' + dk,
+                       'f32' if f32 else 'f64', 'default-params' if dflt else 'other-params'))
+        c['tags'] += plant_nonfinite(c, str(rng.choice(NONFINITE, p=[.5, .2, .15, .15])), rng)
+        out.append(c)
     return out
 
 
@@ -273,17 +311,24 @@ def corr_interp(ctx):
             t_i, z_i = _canon_interp(c, out.astype(float))
             t_m, z_m = _canon_interp(c, m)
             cand = c['data'][~bad]
+            cand = cand[np.isfinite(cand)]
             scale = float(np.max(np.abs(cand))) if cand.size else 0.0
             tol = (2e-6 if c['f32'] else 1e-9) * scale
-            err = float(np.max(np.abs(out.astype(float) - m))) if out.size else 0.0
-            close = err <= tol
+            o = out.astype(float)
+            fin = np.isfinite(o) & np.isfinite(m)
+            same_nonfinite = bool(np.all((np.isnan(o) & np.isnan(m)) | (o == m) | fin))   # NaN/inf only where the other has the same
+            err = float(np.max(np.abs(o[fin] - m[fin]))) if fin.any() else 0.0
+            close = same_nonfinite and err <= tol
+            if not same_nonfinite:
+                err = float('nan')
             impl_s = f'touched={t_i} zero={z_i} values=' + ('ok' if close else f'{out.astype(float).ravel()[:6].tolist()} (max err {err:.3g} > {tol:.3g})')
             model_s = f'touched={t_m} zero={z_m} values=' + ('ok' if close else f'{m.ravel()[:6].tolist()}')
         nb = int(bad.sum())
         ok = ctx.compare('interp', desc, impl_s, model_s, nontrivial=nb > 0,
                          tags=c['tags'] + ('bad=0' if nb == 0 else 'bad=1' if nb == 1 else 'bad=2..5' if nb <= 5 else 'bad>5',
                                            'has-zero-row' if ('zero=[]' not in impl_s) else 'no-zero-row',
-                                           'bad-at-end' if nb and (bad[0] or bad[-1]) else 'bad-inside-only'))
+                                           'bad-at-end' if nb and (bad[0] or bad[-1]) else 'bad-inside-only',
+                                           'nonfinite-input' if not np.all(np.isfinite(c['data'])) else 'finite-input'))
         if not ok:
             ctx.mismatches[-1]['payload'] = _interp_payload(c)
     if nskip:
@@ -328,14 +373,20 @@ def oracle_interp(c):
             if np.any(out[i] != 0):
                 return f'bad channel {int(i)} has no nearby good/outside channel but was not zeroed: {out[i][:4].tolist()}'
             continue
-        lo, hi = din[donors].astype(float).min(axis=0), din[donors].astype(float).max(axis=0)
-        tol = rel * max(float(np.max(np.abs(din[donors].astype(float)))), 1e-300)
+        dd = din[donors].astype(float)
+        okt = np.all(np.isfinite(dd), axis=0)          # samples at which every donor is finite (elsewhere nothing is demanded)
+        if not okt.any():
+            continue
+        lo, hi = dd.min(axis=0), dd.max(axis=0)
+        tol = rel * max(float(np.max(np.abs(dd[:, okt]))), 1e-300)
         o = out[i].astype(float)
-        viol = np.where((o < lo - tol) | (o > hi + tol) | ~np.isfinite(o))[0]
+        viol = np.where(okt & ((o < lo - tol) | (o > hi + tol) | ~np.isfinite(o)))[0]
         if viol.size:
             t = int(viol[0])
+            nf = [(int(a), int(b)) for a, b in zip(*np.where(~np.isfinite(din.astype(float))))][:6]
             return (f'bad channel {int(i)} sample {t}: repaired value {float(o[t])!r} outside the range '
-                    f'[{float(lo[t])!r}, {float(hi[t])!r}] of its {donors.size} nearby good/outside channels {donors[:8].tolist()}')
+                    f'[{float(lo[t])!r}, {float(hi[t])!r}] of its {donors.size} nearby good/outside channels {donors[:8].tolist()} (all finite)'
+                    + (f'; non-finite input samples (channel, sample) {nf} lie in channels that are not donors' if nf else ''))
     return None
 
 
@@ -752,11 +803,11 @@ def _small_interp_neighbourhood():
                 x, y = geometry(gk, nc, rng)
             for code in range(4 ** nc):
                 lab = np.array([(code // 4 ** k) % 4 for k in range(nc)], dtype=int)
-                for dk in ('const', 'outlier'):
-                    d = data_matrix(dk, nc, 1, lab, y, rng)
-                    if dk == 'const':
+                for dk in ('const', 'outlier', 'nan-bad', 'inf-bad'):
+                    d = data_matrix('const' if dk.endswith('-bad') else dk, nc, 1, lab, y, rng)
+                    if dk != 'outlier':
                         d[:] = 10.0
-                        d[(lab == 1) | (lab == 2)] = -500.0
+                        d[(lab == 1) | (lab == 2)] = {'const': -500.0, 'nan-bad': np.nan, 'inf-bad': np.inf}[dk]
                     out.append(dict(nc=nc, ns=1, lab=lab, x=x, y=y, data=d, p=1.3, krig=20., f32=False, tags=()))
     return out
 
